@@ -7,7 +7,7 @@
 From Coq Require Import NArith List Bool String.
 From Verif Require Import Livepatch.Heap Livepatch.Patch Livepatch.Xreload
                           Livepatch.PatchProofs Livepatch.XreloadProofs Livepatch.FrameProofs
-                          Livepatch.ShapeProofs.
+                          Livepatch.ShapeProofs Livepatch.TermProofs.
 Import ListNotations.
 
 (* rollback: the new source raises at any statement index an exception of ANY class exc - the handler is a
@@ -120,6 +120,23 @@ Theorem C16_module_dunders_partial : forall modname newmod_dict bases_ok nm fuel
 Proof. exact module_dunders. Qed.
 Print Assumptions C16_module_dunders_partial.
 
+(* termination with fuel = heap size: the visit stack holds distinct heap addresses and grows with every
+   nested call, nothing is allocated; fuel > |heap| suffices at top level (the harness runs the model with
+   fuel = |heap| + 1), and in general fuel + |visit stack| > |heap| *)
+Theorem C16_termination : forall modname newmod_dict bases_ok nm h m_old m_new fuel,
+  List.length (dom h) < fuel ->
+  livepatch_module modname newmod_dict bases_ok nm fuel h m_old m_new <> OutOfFuel /\
+  forall s' r, livepatch_module modname newmod_dict bases_ok nm fuel h m_old m_new = Ok s' r ->
+               dom (hp s') = dom h.
+Proof. exact termination. Qed.
+Print Assumptions C16_termination.
+
+Theorem C16_termination_nested : forall modname newmod_dict bases_ok nm fuel s stack old new,
+  NoDup stack -> incl stack (dom (hp s)) -> List.length (dom (hp s)) < fuel + List.length stack ->
+  lp modname newmod_dict bases_ok nm fuel s stack old new <> OutOfFuel.
+Proof. exact termination_nested. Qed.
+Print Assumptions C16_termination_nested.
+
 (* non-vacuity: a two-function module (f kept and re-coded, g replaced because its cell value differs,
    h deleted, k added) patched by the model *)
 Definition nv_heap : heap :=
@@ -137,7 +154,7 @@ Definition nv_heap : heap :=
     (200, OPrim 5 5); (205, OPrim 5 6); (104, OPrim 7 31); (204, OPrim 7 32) ]%N.
 
 Example C16_nonvacuous :
-  match livepatch_module 9%N 4%N (fun _ _ => true) (mkNames 90 91 92 93)%N 30 nv_heap 1%N 2%N with
+  match livepatch_module 9%N 4%N (fun _ _ => true) (mkNames 90 91 92 93)%N (S (List.length nv_heap)) nv_heap 1%N 2%N with
   | Ok s r =>
       r = 1%N /\
       lookup (hp s) 3%N = Some (ODict [(20, 10); (21, 14); (23, 15)])%N /\      (* f kept, g replaced, h gone, k new *)
